@@ -99,10 +99,25 @@ pub fn impl_parsenum(s: &str) -> String {
 }
 
 /// only accept/reject/panic (for inputs too large to ship through the line protocol)
+/// CPU time consumed by this thread so far, in ms (`/proc/thread-self/stat`, utime + stime in
+/// clock ticks of 10 ms).  Wall-clock time is no measure of the library's work: on a loaded
+/// machine the process may not run for many seconds.
+fn thread_cpu_ms() -> Option<u128> {
+    let st = std::fs::read_to_string("/proc/thread-self/stat").ok()?;
+    // the command name (field 2) may contain spaces: fields are counted after the closing ')'
+    let rest = &st[st.rfind(')')? + 1..];
+    let f: Vec<&str> = rest.split_whitespace().collect();
+    let ut: u128 = f.get(11)?.parse().ok()?;
+    let stime: u128 = f.get(12)?.parse().ok()?;
+    Some((ut + stime) * 10)
+}
+
 fn verdict_only(s: &str) -> (&'static str, u128) {
     let t0 = Instant::now();
+    let c0 = thread_cpu_ms();
     let r = catch_unwind(AssertUnwindSafe(|| Tree::from_str(s).is_ok()));
-    let ms = t0.elapsed().as_millis();
+    // CPU time of the call where the kernel tells it, wall time otherwise
+    let ms = match (c0, thread_cpu_ms()) { (Some(a), Some(b)) => b.saturating_sub(a), _ => t0.elapsed().as_millis() };
     (
         match r {
             Ok(true) => "accepted",
@@ -303,8 +318,9 @@ pub fn run_expr(out: &mut Out, thorough: bool, rng: &mut Rng) {
         let (v, ms) = verdict_only(s);
         max_ms = max_ms.max(ms);
         out.line(&format!("J nopanic exprtree gen:{}:{}bytes {}", desc, s.len(), v), "ok");
-        // linear-time bound, very generous (observed: a few ms per MB)
-        let speed = if ms <= 10_000 { "fast" } else { "SLOW" };
+        // linear-time bound on the CPU time of the call, very generous (observed: < 100 ms for
+        // the largest input; a quadratic parser needs hours for 10^6 characters)
+        let speed = if ms <= 30_000 { "fast" } else { "SLOW" };
         out.line(&format!("J nohang exprtree gen:{}:{}bytes {}", desc, s.len(), speed), "ok");
     }
     out.note("max_ms_large_input", format!("{}", max_ms));
